@@ -8,6 +8,22 @@ PY = "/venv/bin/python"
 
 # id -> (technique, level text, level note, design ref)
 CHECKS = {
+    "C10": ("Hypothesis states (Clifford+T, continuous rotations, GHZ/W templates, mixtures by injection) per configuration; exact outcome statistics from a dense simulator fed through a duck-typed result; oracle Tr(rho P) for all 4^n Paulis",
+            "The tomography circuits the library returns are simulated exactly and the fitter's 4^n expectation values and density matrix are compared "
+            "with dense algebra (1e-9). One Hypothesis search per configuration (all 20 in every run); the operator-space rank of the sampled states is "
+            "reported (full rank 4^n for n<=3 in quick, n<=4 in thorough), which with linearity of the fitter extends exactness to all states there.",
+            "Trusted: dense simulator and its little-endian conventions (self-tested). A continuum is sampled; mixed states are injected behind an empty preparation circuit.",
+            "DESIGN.md §4 C10"),
+    "C11": ("Hypothesis: register size, ORDERED qubit lists (sorted/reversed/mirror-symmetric/generic), configuration, entangled states; oracle: partial trace in list order, both APIs, reduced and full-register mode",
+            "For generated ordered sublists of registers of up to 8 qubits the fitters' outputs are compared with the partial trace of the dense state "
+            "in list order; non-trivial cases are those where the oracle itself distinguishes the listed order from the sorted and the mirrored list.",
+            "Trusted: dense simulator / partial trace (self-tested against full-register expectations). Plain integer qubit lists only.",
+            "DESIGN.md §4 C11"),
+    "C12": ("Hypothesis (stabilizer member x state) per configuration + all groups n=2,3; exact statistics; oracle <psi|P|psi> over the unsigned span of the given generators",
+            "Stabilizer-measurement circuits are simulated exactly; the fitter must report exactly the 2^n unsigned group elements with Tr(rho P). "
+            "Stabilizers come from every configuration with random signs, bases and formats; states are non-eigenstates with continuous parameters.",
+            "Trusted: dense simulator, own span enumeration. Sampled states.",
+            "DESIGN.md §4 C12"),
     "C07": ("Hypothesis gate sequences (0..300 gates, macros for redundant patterns) x configurations, collect-then-shrink, vs. dense-simulation fidelity, coupling table, LC-oracle class cost and input snapshot",
             "Random and structured Clifford circuits over the documented gate set are compressed; input and output states are compared by a "
             "from-scratch dense simulator, the output is checked against the coupling table and the class cost, and the input object is "
